@@ -110,19 +110,40 @@ func v30isInt(v Value, want int) bool {
 // engine/symgo/x_c30.go); natively it does nothing.
 func v30normalizeProducts() {}
 
-// C30 n-ary + (with -): 2..3 (thorough 4) operands, each a literal or an identifier, operands
-// after the first optionally subtracted (a - b is Add(a, Sub b) as the parser builds it).
+// C30 n-ary + (with -) and * (with /): 2..3 (thorough 4) operands, each a literal or an
+// identifier, operands after the first optionally inverted (a - b is Add(a, Sub b), a / b is
+// Mul(a, Div b), as the parser builds them).
+// Division is exact by construction: every divisor d is a non-zero symbolic integer, the first
+// operand is a multiple of the product of the identifier divisors, and the first literal
+// multiplier (the first operand if there is none) is a multiple of the product of the literal
+// divisors; m below is the free factor of a multiplier.
+// quick: all values and results are small ints. thorough: also sums of integers up to 10^12
+// (SuInt64 representation) and products with |m|<=99, |d|<=9 for 2..3 operands.
 //
-//symgo:harness prop=C30 tier=quick arith=int shards=4 tshards=8 timeout=300 ttimeout=1700 qtimeout=20000 bounds=n-ary_+_and_-_with_2..3_(thorough_4)_operands,_each_a_literal_or_an_identifier;integer_values_|v|<=8000_(all_results_small_ints) outside=decimals_and_larger_integers;ill-typed_operands
-func VerifC30FoldAdd() {
-	maxN := 3
+//symgo:harness prop=C30 tier=quick arith=int shards=2 tshards=16 timeout=300 ttimeout=1700 qtimeout=20000 bounds=n-ary_+_-_and_*_/_with_2..3_(thorough_4)_operands,_each_a_literal_or_an_identifier;+_-:_integers_|v|<=8000_(thorough_also_10^12);*_/:_multipliers_m*(divisors_they_carry)_|m|<=9,_divisors_1<=|d|<=3_(thorough_also_99_and_9_with_2..3_operands);all_divisions_exact_by_construction outside=decimals_and_inexact_division;zero_divisors;ill-typed_operands;integers_beyond_the_stated_ranges
+func VerifC30FoldArith() {
+	maxN, wide := 3, false
 	if rt.Thorough() {
-		maxN = 4
+		maxN, wide = 4, rt.Pick("wide", 2) == 1
 	}
+	if rt.Pick("mul", 2) == 0 {
+		if wide {
+			v30add(maxN, 1_000_000_000_000)
+		} else {
+			v30add(maxN, 8000)
+		}
+	} else if wide {
+		v30mul(3, 99, 9)
+	} else {
+		v30mul(maxN, 9, 3)
+	}
+}
+
+func v30add(maxN, lim int) {
 	n := 2 + rt.Pick("n", maxN-1)
 	raw := make([]int, n)
 	ops, ctx := v30operands(n, func(i int) Value {
-		raw[i] = v30int("v"+v30names[i], 8000)
+		raw[i] = v30int("v"+v30names[i], lim)
 		return IntVal(raw[i])
 	})
 	inv := make([]bool, n)
@@ -148,19 +169,9 @@ func VerifC30FoldAdd() {
 	rt.Assert("eval/add-model", v30isInt(v1, want))
 }
 
-// C30 n-ary * (with /): 2..3 (thorough 4) operands, each a literal or an identifier, operands
-// after the first optionally divisors (a / b is Mul(a, Div b) as the parser builds it). Exact
-// division by construction: every divisor d is a non-zero symbolic integer, the first operand is
-// a multiple of the product of the identifier divisors, and the first literal multiplier (the
-// first operand if there is none) is a multiple of the product of the literal divisors.
-//
-//symgo:harness prop=C30 tier=quick arith=int shards=4 tshards=16 timeout=300 ttimeout=1700 qtimeout=20000 bounds=n-ary_*_and_/_with_2..3_(thorough_4)_operands,_each_a_literal_or_an_identifier;multipliers_m*(divisors_they_carry),_|m|<=9;divisors_1<=|d|<=3_(all_results_small_ints);all_divisions_exact_by_construction outside=decimals_and_inexact_division;zero_divisors;ill-typed_operands
-func VerifC30FoldMul() {
+
+func v30mul(maxN, mlim, dlim int) {
 	v30normalizeProducts()
-	maxN := 3
-	if rt.Thorough() {
-		maxN = 4
-	}
 	n := 2 + rt.Pick("n", maxN-1)
 	isConst, inv, f := make([]bool, n), make([]bool, n), make([]int, n)
 	firstConstMul, firstIdent := -1, -1
@@ -169,11 +180,11 @@ func VerifC30FoldMul() {
 		isConst[i] = rt.Pick("const"+v30names[i], 2) == 1
 		inv[i] = i > 0 && rt.Pick("inv"+v30names[i], 2) == 1
 		if inv[i] {
-			f[i] = v30int("v"+v30names[i], 3)
+			f[i] = v30int("v"+v30names[i], dlim)
 			rt.Assume(f[i] != 0)
 			hasConstDiv = hasConstDiv || isConst[i]
 		} else {
-			f[i] = v30int("v"+v30names[i], 9)
+			f[i] = v30int("v"+v30names[i], mlim)
 			if isConst[i] && firstConstMul < 0 {
 				firstConstMul = i
 			}
@@ -221,4 +232,254 @@ func VerifC30FoldMul() {
 		return b.Nary(tok.Mul, es)
 	})
 	rt.Assert("eval/mul-model", v30isInt(v1, want))
+}
+
+// ------------------------------------------------------------------------------------------
+// the non-arithmetic shapes (bit-vector mode)
+
+const (
+	v30kInt = iota
+	v30kStr
+	v30kBool
+)
+
+func v30maxStr() int {
+	if rt.Thorough() {
+		return 2
+	}
+	return 1
+}
+
+// v30value: a symbolic value of the kind: any int8 as a small int, a string of 0..1 bytes, a boolean.
+func v30value(tag string, kind int) Value {
+	switch kind {
+	case v30kInt:
+		return IntVal(int(rt.I8(tag)))
+	case v30kStr:
+		return SuStr(rt.Str(tag, rt.Pick(tag+"len", v30maxStr()+1)))
+	}
+	return SuBool(rt.Bool(tag))
+}
+
+// lit: a literal; id: an identifier with that value; opd: one or the other (forked)
+func (c *v30ctx) lit(val Value) v30opd { return v30opd{val: val, isConst: true} }
+func (c *v30ctx) id(name string, val Value) v30opd {
+	c.names, c.vals = append(c.names, name), append(c.vals, val)
+	return v30opd{val: val, name: name}
+}
+func (c *v30ctx) opd(name string, val Value) v30opd {
+	if rt.Pick("const"+name, 2) == 1 {
+		return c.lit(val)
+	}
+	return c.id(name, val)
+}
+
+func v30naryLabel(t tok.Token) string {
+	switch t {
+	case tok.And, tok.Or:
+		return "fold/and-or"
+	case tok.Cat:
+		return "fold/cat"
+	}
+	return "fold/bitop"
+}
+
+var v30cmpToks = []tok.Token{tok.Is, tok.Isnt, tok.Lt, tok.Lte, tok.Gt, tok.Gte}
+
+// v30kindPair: the kinds of two compared values: mostly numbers, and the mixed-type pairs
+func v30kindPair(tag string) (int, int) {
+	p := [][2]int{{v30kInt, v30kInt}, {v30kStr, v30kStr}, {v30kInt, v30kStr}, {v30kStr, v30kInt}, {v30kBool, v30kInt}, {v30kBool, v30kBool}}
+	k := p[rt.Pick(tag, len(p))]
+	return k[0], k[1]
+}
+
+// C30 unary, binary, not(binary), and/or, bit operators, $, ?: and in.
+//
+//symgo:harness prop=C30 tier=quick shards=3 tshards=8 timeout=300 ttimeout=1700 bounds=operands_each_a_literal_or_an_identifier;numbers_any_int8,_strings_of_0..1_(thorough_2)_bytes,_booleans;unary_+_-_~_()_not;binary_is_isnt_<_<=_>_>=_on_number|string|boolean_pairs,_%_(divisor_non-zero)_<<_>>_(count_0..63)_on_numbers;not_(a_cmp_b);and_or_|_&_^_$_with_2..3_(thorough_4)_operands;c_?_a_:_b;e_in_(0..3_members) outside=match_operators;ill-typed_operands;decimals
+func VerifC30FoldLogic() {
+	ctx := &v30ctx{}
+	maxN := 3
+	if rt.Thorough() {
+		maxN = 4
+	}
+	switch rt.Pick("shape", 8) {
+	case 0: // unary
+		t := []tok.Token{tok.Add, tok.Sub, tok.BitNot, tok.LParen, tok.Not}[rt.Pick("tok", 5)]
+		kind := v30kInt
+		if t == tok.Not {
+			kind = v30kBool
+		}
+		o := ctx.opd("x", v30value("vx", kind))
+		v30run("fold/unary", ctx, func(b Builder) Expr { return b.Unary(t, o.expr()) })
+	case 1: // comparison, and not (comparison)
+		t := v30cmpToks[rt.Pick("tok", 6)]
+		k1, k2 := v30kindPair("kinds")
+		l, r := ctx.opd("x", v30value("vx", k1)), ctx.opd("y", v30value("vy", k2))
+		not := rt.Pick("not", 2) == 1
+		v30run("fold/compare", ctx, func(b Builder) Expr {
+			e := b.Binary(l.expr(), t, r.expr())
+			if not {
+				e = b.Unary(tok.Not, b.Unary(tok.LParen, e))
+			}
+			return e
+		})
+	case 2: // % << >>
+		t := []tok.Token{tok.Mod, tok.LShift, tok.RShift}[rt.Pick("tok", 3)]
+		x, y := int(rt.I8("vx")), int(rt.I8("vy"))
+		if t == tok.Mod {
+			rt.Assume(y != 0)
+		} else {
+			rt.Assume(0 <= y && y <= 63)
+		}
+		l, r := ctx.opd("x", IntVal(x)), ctx.opd("y", IntVal(y))
+		v30run("fold/binary-int", ctx, func(b Builder) Expr { return b.Binary(l.expr(), t, r.expr()) })
+	case 3: // and, or: booleans; | & ^: numbers; $: strings
+		t := []tok.Token{tok.And, tok.Or, tok.BitOr, tok.BitAnd, tok.BitXor, tok.Cat}[rt.Pick("tok", 6)]
+		kind := v30kInt
+		switch t {
+		case tok.And, tok.Or:
+			kind = v30kBool
+		case tok.Cat:
+			kind = v30kStr
+		}
+		n := 2 + rt.Pick("n", maxN-1)
+		ops := make([]v30opd, n)
+		for i := range n {
+			ops[i] = ctx.opd(v30names[i], v30value("v"+v30names[i], kind))
+		}
+		v30run(v30naryLabel(t), ctx, func(b Builder) Expr {
+			es := make([]Expr, n)
+			for i := range n {
+				es[i] = ops[i].expr()
+			}
+			return b.Nary(t, es)
+		})
+	case 4: // nested n-ary of the same operator in parentheses: a op (b op c) op d
+		t := []tok.Token{tok.And, tok.Or, tok.BitOr, tok.Cat}[rt.Pick("tok", 4)]
+		kind := v30kInt
+		switch t {
+		case tok.And, tok.Or:
+			kind = v30kBool
+		case tok.Cat:
+			kind = v30kStr
+		}
+		ops := make([]v30opd, 4)
+		for i := range 4 {
+			ops[i] = ctx.opd(v30names[i], v30value("v"+v30names[i], kind))
+		}
+		pos := rt.Pick("pos", 3) // the parenthesised pair is operand pos of the outer list (2 = none after it)
+		v30run(v30naryLabel(t)+"-nested", ctx, func(b Builder) Expr {
+			inner := b.Unary(tok.LParen, b.Nary(t, []Expr{ops[1].expr(), ops[2].expr()}))
+			switch pos {
+			case 0:
+				return b.Nary(t, []Expr{inner, ops[0].expr(), ops[3].expr()})
+			case 1:
+				return b.Nary(t, []Expr{ops[0].expr(), inner, ops[3].expr()})
+			}
+			return b.Nary(t, []Expr{ops[0].expr(), ops[3].expr(), inner})
+		})
+	case 5: // c ? a : b
+		c := ctx.opd("w", v30value("vw", v30kBool))
+		a, f := ctx.opd("x", v30value("vx", v30kInt)), ctx.opd("y", v30value("vy", v30kInt))
+		v30run("fold/trinary", ctx, func(b Builder) Expr { return b.Trinary(c.expr(), a.expr(), f.expr()) })
+	case 6, 7: // e in (members), e not in (members)
+		kind := []int{v30kInt, v30kStr}[rt.Pick("kind", 2)]
+		e := ctx.opd("w", v30value("vw", kind))
+		n := rt.Pick("n", 4)
+		ms := make([]v30opd, n)
+		for i := range n {
+			ms[i] = ctx.opd(v30names[i+1], v30value("v"+v30names[i+1], kind))
+		}
+		not := rt.Pick("not", 2) == 1
+		v30run("fold/in", ctx, func(b Builder) Expr {
+			es := make([]Expr, n)
+			for i := range n {
+				es[i] = ms[i].expr()
+			}
+			r := b.In(e.expr(), es)
+			if not {
+				r = b.Unary(tok.Not, r)
+			}
+			return r
+		})
+	}
+}
+
+// v30term is one comparison of an identifier with a literal or another identifier, written with
+// the identifier on the left or on the right.
+type v30term struct {
+	id, other v30opd
+	t         tok.Token
+	flip      bool
+}
+
+func (m v30term) expr(b Builder) Expr {
+	if m.flip {
+		return b.Binary(m.other.expr(), m.t, m.id.expr())
+	}
+	return b.Binary(m.id.expr(), m.t, m.other.expr())
+}
+
+// C30 range folding (x > a and x < b => InRange) and or-to-in folding (x is a or x is b => in).
+// Two comparisons of the identifiers x / y with literals (thorough: also identifiers), optionally
+// a further boolean identifier before, between or after them (as the parser builds `p and x > a
+// and x < b`).
+//
+//symgo:harness prop=C30 tier=quick shards=3 tshards=8 timeout=300 ttimeout=1700 bounds=and_of_two_comparisons_(<_<=_>_>=)_and_or_of_two_is-comparisons,_of_identifier_x_then_x_or_y,_with_literals_(thorough_or_identifiers);first_comparison_written_either_way_round;optional_boolean_identifier_term_before_or_after_(thorough_also_between);values:identifiers_number|string_(thorough_also_boolean),_literal_pairs_number-number|string-string|number-string;numbers_any_int8,_strings_0..1_(thorough_2)_bytes outside=member_expressions_(.x);more_than_two_comparisons;decimals
+func VerifC30FoldRangeIn() {
+	ctx := &v30ctx{}
+	isOr := rt.Pick("or", 2) == 1
+	nk, extras := 2, []int{0, 1, 3}
+	if rt.Thorough() {
+		nk, extras = 3, []int{0, 1, 2, 3}
+	}
+	xk := rt.Pick("xkind", nk)
+	x := ctx.id("x", v30value("vx", xk))
+	id2 := x
+	if rt.Pick("second-id", 2) == 1 {
+		id2 = ctx.id("y", v30value("vy", xk))
+	}
+	lk := [][2]int{{v30kInt, v30kInt}, {v30kStr, v30kStr}, {v30kInt, v30kStr}}[rt.Pick("litkinds", 3)]
+	var a, c v30opd
+	if rt.Thorough() {
+		a, c = ctx.opd("a", v30value("va", lk[0])), ctx.opd("c", v30value("vc", lk[1]))
+	} else {
+		a, c = ctx.lit(v30value("va", lk[0])), ctx.lit(v30value("vc", lk[1]))
+	}
+	t1 := v30term{id: x, other: a, flip: rt.Pick("flip", 2) == 1}
+	t2 := v30term{id: id2, other: c}
+	label := "fold/range"
+	if isOr {
+		label = "fold/or-to-in"
+		t1.t, t2.t = tok.Is, tok.Is
+		if rt.Pick("isnt", 4) == 3 {
+			t2.t = tok.Isnt
+		}
+	} else {
+		rng := []tok.Token{tok.Lt, tok.Lte, tok.Gt, tok.Gte}
+		t1.t, t2.t = rng[rt.Pick("tok1", 4)], rng[rt.Pick("tok2", 4)]
+	}
+	extra := extras[rt.Pick("extra", len(extras))] // 0 none, 1 before, 2 between (thorough), 3 after
+	var p v30opd
+	if extra > 0 {
+		p = ctx.id("p", v30value("vp", v30kBool))
+	}
+	v30run(label, ctx, func(b Builder) Expr {
+		e1, e2 := t1.expr(b), t2.expr(b)
+		var es []Expr
+		switch extra {
+		case 0:
+			es = []Expr{e1, e2}
+		case 1:
+			es = []Expr{p.expr(), e1, e2}
+		case 2:
+			es = []Expr{e1, p.expr(), e2}
+		case 3:
+			es = []Expr{e1, e2, p.expr()}
+		}
+		if isOr {
+			return b.Nary(tok.Or, es)
+		}
+		return b.Nary(tok.And, es)
+	})
 }
